@@ -90,6 +90,9 @@ func ParsePathUint64(khash uint64, buf []int) []int {
 }
 
 func ParsePathString(pathStr string, buf []int) ([]int, error) {
+	if len(pathStr) > len(buf) {
+		return nil, strconv.ErrRange
+	}
 	path := buf[:len(pathStr)]
 	for i := 0; i < len(pathStr); i++ {
 		idx, err := strconv.ParseInt(pathStr[i:i+1], 16, 0)
